@@ -229,9 +229,25 @@ def run_impl(case):
 
     results = [[] for _ in case['threads']]
 
+    cur = {}        # thread -> the operation it is in
+    logged = {}     # thread -> the event already logged for the current operation at lock release
+
+    def before_release(t, lock):
+        # the critical section's work is done when the thread reaches _lock.__exit__: log here, so the
+        # history is in critical-section order; a hit's object id is filled in when get() returns
+        if logged.get(t) is not None or t not in cur:
+            return
+        if cur[t] == 'clear':
+            logged[t] = ['clear', t]
+            st['hist'].append(logged[t])
+        elif not st['op_calls'].get(t):
+            logged[t] = ['hit', t, cur[t]['get'], None]
+            st['hist'].append(logged[t])
+
     def do_get(k):
         def op(t, i):
             st['op_calls'][t] = []
+            cur[t], logged[t] = {'get': k}, None
             try:
                 v = adapter.get(k)
             except Abort:
@@ -245,20 +261,25 @@ def run_impl(case):
                     st['hist'].append(['error', t, k, type(e).__name__])
                 return
             c = ident(v)
-            if not st['op_calls'][t]:
+            if logged[t] is not None:
+                logged[t][3] = c
+            elif not st['op_calls'][t]:
                 st['hist'].append(['hit', t, k, c])
             results[t].append(['val', c])
         return op
 
     def do_clear():
         def op(t, i):
+            cur[t], logged[t] = 'clear', None
             adapter.clear()
-            st['hist'].append(['clear', t])
+            if logged[t] is None:
+                st['hist'].append(['clear', t])
             results[t].append(['cleared'])
         return op
 
     programs = [[do_clear() if o == 'clear' else do_get(o['get']) for o in prog] for prog in case['threads']]
     sched = Sched(programs)
+    sched.before_release = before_release
     holder['sched'] = sched
     old_nc = config.no_cache
     try:
@@ -558,7 +579,9 @@ def check_real_files(env, res):
     request must get the pipeline from its own file."""
     import pypyr.cache.admin
     from pypyr.cache.loadercache import loader_cache
+    import pypyr.moduleloader as ml
     root = Path(tempfile.mkdtemp(prefix='c13files')).resolve()
+    before_path, before_known = list(sys.path), set(ml._known_dirs)
     try:
         layout = {}
         for d, n in [('a', 'b+c'), ('a+b', 'c'), ('a', 'b'), ('a+b+c', 'd'), ('a', 'b+c+d'), ('a+b', 'c+d'),
@@ -592,6 +615,9 @@ def check_real_files(env, res):
                                   signature={'clause': 'pipeline_key', 'cache': 'Loader'}, impl={'got': got})
         pypyr.cache.admin.clear_all()
     finally:
+        sys.path[:] = before_path
+        ml._known_dirs.clear()
+        ml._known_dirs.update(before_known)
         shutil.rmtree(root, ignore_errors=True)
 
 
@@ -702,11 +728,11 @@ def run(env, res):
     allc = enumerate_cases(env)
     res.extra['exhaustive_schedules_total'] = len(allc)
     if env.quick:
-        allc = env.rng.sample(allc, 350)
+        allc = env.rng.sample(allc, 2500)
     for i, c in enumerate(allc):
         c['cache'] = KINDS[i % len(KINDS)]
     # 3. random longer histories
-    rnd = [random_case(env.rng) for _ in range(env.n(150, 1500))]
+    rnd = [random_case(env.rng) for _ in range(env.n(400, 3000))]
     work = allc + rnd
     if env.quick:
         for case in work:
